@@ -127,6 +127,7 @@ fn main() {
     ops::silence_panics();
     match args.get(1).map(String::as_str) {
         Some("oracle") => oracle::serve(),
+        Some("bytes") => p_archive::bytes_cmd(&args[2], &args[3]),
         Some("worker") => {
             let stdin = std::io::stdin();
             let stdout = std::io::stdout();
